@@ -162,6 +162,16 @@ func runC15(c string) string {
 	var dir string
 	if h[0] == "mem" {
 		st = exec.VerifNewMemoryStore()
+	} else if h[0] == "lfile" {
+		// the file store on the real local file system (as on a bigmachine worker): no injected failures, but the
+		// directory can be removed under live writers ("breakdir"), which makes the final close/rename of a commit fail
+		c15seq++
+		dir = fmt.Sprintf("%s/c15lstore-%d-%d", os.TempDir(), os.Getpid(), c15seq)
+		if err := os.Mkdir(dir, 0o755); err != nil {
+			panic(err)
+		}
+		defer os.RemoveAll(dir)
+		st = exec.VerifNewFileStore(dir)
 	} else {
 		var err error
 		// a fresh, never reused name (MkdirTemp draws 32-bit random names, which do repeat over 10^5 cases)
@@ -243,6 +253,14 @@ func runC15(c string) string {
 					return "err"
 				}
 				return fmt.Sprintf("stat:%d:%d", size, recs)
+			case "breakdir":
+				if err := os.RemoveAll(dir); err != nil {
+					return "err"
+				}
+				if err := os.Mkdir(dir, 0o755); err != nil {
+					return "err"
+				}
+				return "ok"
 			case "discard":
 				if err := st.Discard(ctx, tn(op[1]), atoi(op[2])); err != nil {
 					return "err"
